@@ -12,13 +12,16 @@ META = {
                    'established structurally (x starts at width, the row switch that assigns Some(..) dominates every use); (R08.2) every Ok '
                    'value of decompress is, by provenance, a buffer created as vec![0; width*height*4], the event data guarded by '
                    'len == width*height*4, or the result of rgb565torgb32 which returns such a buffer; (R08.3) every overflow / division / '
-                   'bounds / slicing site of decompress, rgb565torgb32, rle_32_decompress and process_plane is discharged for all u16 dimensions and all '
-                   'data, either by the interval analysis or by an inductive relational invariant inferred on the MIR (exact polynomial values, '
-                   'polynomial inequalities kept at a join only if every incoming edge entails them, callee preconditions = join over all call sites); '
-                   'in rle_16_decompress the arithmetic outside the run loops is discharged in the quick tier and the index / counter sites inside the '
-                   'run loops in the thorough tier; (R08.4) every allocation has size width*height*{1,2,4} elements and there is no unsafe code; '
+                   'bounds / slicing site of decompress, rgb565torgb32, rle_32_decompress, process_plane and rle_16_decompress is discharged for all u16 '
+                   'dimensions and all data, either by the interval analysis or by an inductive relational invariant inferred on the MIR (exact polynomial '
+                   'values, polynomial inequalities kept at a join only if every incoming edge entails them, callee preconditions = join over all call '
+                   'sites); rle_16_decompress is analysed by cases on its width parameter: width >= 1 in both tiers, width = 0 in the thorough tier, where '
+                   'the only sites that are not implied are the two inserted-mix stores, excluded by (R08.6): the inserted-mix flag is never set while '
+                   'x == width and no line has been decoded; '
+                   '(R08.4) every allocation has size width*height*{1,2,4} elements and there is no unsafe code; '
                    '(R08.5) every CFG cycle through a pixel store passes a comparison of the column counter with the width.',
     'assumptions': ['in-crate call sites are the only callers of the pub codec helpers (rle_16_decompress relies on its caller for output.len() >= width*height)',
+                    'quick tier: the in-loop sites of rle_16_decompress are decided for width >= 1 only (width = 0 is decided in the thorough tier and guarded by R08.6 in both)',
                     'byteorder read_* fail cleanly at end of input', 'a slice is never longer than isize::MAX'],
     'trusted_base': ['rustc nightly MIR construction', 'mirfacts exporter', 'rules/c08.py, relinv.py, hpa.py, hpa_report.py, poly.py, sym.py, facts.py'],
 }
